@@ -147,7 +147,7 @@ theorem sound_exportAll (es : List (Name × V)) (s : St) : Sound s (exportAll es
 
 /-- the runner used for nested execution is sound on every call -/
 def RecSound (rec : Runner) : Prop :=
-  ∀ dir body s r s', rec dir body s = some (r, s') → Sound s s'
+  ∀ self dir body s r s', rec self dir body s = some (r, s') → Sound s s'
 
 theorem upd_same {α : Type} (f : Path → α) (p : Path) (a : α) : upd f p a p = a := by simp [upd]
 
@@ -271,11 +271,11 @@ theorem sound_loadModule {fs : FS} {rec : Runner} (hrec : RecSound rec) {p : Pat
         simp [this]
       · rw [inProgB_upd_other _ _ _ _ hqp]
         simp [ev_enter_ne hqp, this]
-  cases hr : rec p.folder (bodyOf fs p) s2 with
+  cases hr : rec (some p) p.folder (bodyOf fs p) s2 with
   | none => rw [hr] at h; cases h
   | some res =>
     obtain ⟨res1, s3⟩ := res
-    obtain ⟨inv3, rel3⟩ := hrec _ _ _ _ _ hr inv2
+    obtain ⟨inv3, rel3⟩ := hrec _ _ _ _ _ _ hr inv2
     obtain ⟨t, ht, hnt⟩ := rel3.out
     have hp3 : s3.cache p = some Entry.inProgress := rel3.prog p (by rw [s2cache, upd_same])
     have hd3 : doneB s3.cache p = false := by simp [doneB, hp3]
@@ -688,12 +688,44 @@ theorem sound_runFn {cfg : Cfg} {fs : FS} {rec : Runner} (hrec : RecSound rec) {
     simp only [Option.some.injEq, Prod.mk.injEq] at h
     rw [← h.2]; exact sound_execActs hrec _ ha
 
+theorem sound_callValue {cfg : Cfg} {fs : FS} {rec : Runner} (hrec : RecSound rec) {v : V}
+    {s s' : St} {r : Option Err} (h : callValue cfg fs rec v s = some (r, s')) : Sound s s' := by
+  unfold callValue at h
+  split at h
+  · split at h
+    · simp only [Option.some.injEq, Prod.mk.injEq] at h; rw [← h.2]; exact Sound.refl s
+    · split at h
+      · cases h
+      · rename_i ha
+        simp only [Option.some.injEq, Prod.mk.injEq] at h
+        rw [← h.2]; exact sound_execActs hrec _ ha
+  · simp only [Option.some.injEq, Prod.mk.injEq] at h; rw [← h.2]; exact Sound.refl s
+
 theorem sound_execTAct {cfg : Cfg} {fs : FS} {rec : Runner} (hrec : RecSound rec) {a : TAct}
     {fr fr' : Frame} {s s' : St} {r : Option Err}
     (h : execTAct cfg fs rec a fr s = some (r, fr', s')) : Sound s s' := by
   unfold execTAct at h
   split at h
   · exact sound_execAct hrec h
+  · -- export of a function
+    simp only [Option.some.injEq, Prod.mk.injEq] at h; rw [← h.2.2]
+    exact (sound_exports s _).trans (sound_setData _ _ _)
+  · -- m.k()
+    split at h
+    · simp only [Option.some.injEq, Prod.mk.injEq] at h; rw [← h.2.2]; exact Sound.refl s
+    · split at h
+      · simp only [Option.some.injEq, Prod.mk.injEq] at h; rw [← h.2.2]; exact Sound.refl s
+      · split at h
+        · cases h
+        · rename_i hc
+          simp only [Option.some.injEq, Prod.mk.injEq] at h; rw [← h.2.2]; exact sound_callValue hrec hc
+  · -- k()
+    split at h
+    · simp only [Option.some.injEq, Prod.mk.injEq] at h; rw [← h.2.2]; exact Sound.refl s
+    · split at h
+      · cases h
+      · rename_i hc
+        simp only [Option.some.injEq, Prod.mk.injEq] at h; rw [← h.2.2]; exact sound_callValue hrec hc
   · simp only [Option.some.injEq, Prod.mk.injEq] at h; rw [← h.2.2]; exact sound_exports s _
   · simp only [Option.some.injEq, Prod.mk.injEq] at h; rw [← h.2.2]; exact sound_exports s _
 
@@ -777,9 +809,9 @@ theorem sound_runBody {cfg : Cfg} {fs : FS} {rec : Runner} (hrec : RecSound rec)
 theorem recSound_runUnit (cfg : Cfg) (fs : FS) : ∀ fuel, RecSound (runUnit cfg fs fuel) := by
   intro fuel
   induction fuel with
-  | zero => intro dir body s r s' h; simp [runUnit] at h
+  | zero => intro self dir body s r s' h; simp [runUnit] at h
   | succ n ih =>
-    intro dir body s r s' h
+    intro self dir body s r s' h
     simp only [runUnit] at h
     exact sound_runBody ih h
 
@@ -871,6 +903,9 @@ def touches (al sa et : Bool) (k : Name) : Act → Bool
 
 def touchesT (al sa et : Bool) (k : Name) : TAct → Bool
   | .act a => touches al sa et k a
+  | .exportFn k' _ _ => k' == k
+  | .callMember _ _ => true      -- the called function may export anything into the active exports map
+  | .call _ => true
   | _ => false
 
 theorem setData_lookup_ne (k k2 : Name) (v : V) (s : St) (hne : k2 ≠ k) :
@@ -1118,6 +1153,12 @@ theorem execTAct_keeps {cfg : Cfg} {fs : FS} {rec : Runner} {a : TAct} {fr fr' :
   unfold execTAct at h
   split at h
   · exact execAct_keeps k h (by simpa [touchesT] using ht)
+  · simp only [Option.some.injEq, Prod.mk.injEq] at h; rw [← h.2.2, ← h.2.1]
+    simp only [touchesT, beq_eq_false_iff_ne] at ht
+    refine ⟨?_, rfl⟩
+    rw [setData_lookup_ne _ _ _ _ (fun hh => ht hh.symm)]
+  · simp [touchesT] at ht
+  · simp [touchesT] at ht
   · simp only [Option.some.injEq, Prod.mk.injEq] at h; rw [← h.2.2, ← h.2.1]; exact ⟨rfl, rfl⟩
   · simp only [Option.some.injEq, Prod.mk.injEq] at h; rw [← h.2.2, ← h.2.1]; exact ⟨rfl, rfl⟩
 
@@ -1252,6 +1293,19 @@ theorem execTAct_exportTop {cfg : Cfg} {fs : FS} {rec : Runner} {a : TAct} {fr f
   unfold execTAct at h
   split at h
   · exact execAct_exportTop h
+  · simp only [Option.some.injEq, Prod.mk.injEq] at h; rw [← h.2.1]; rfl
+  · split at h
+    · simp only [Option.some.injEq, Prod.mk.injEq] at h; rw [← h.2.1]
+    · split at h
+      · simp only [Option.some.injEq, Prod.mk.injEq] at h; rw [← h.2.1]
+      · split at h
+        · cases h
+        · simp only [Option.some.injEq, Prod.mk.injEq] at h; rw [← h.2.1]
+  · split at h
+    · simp only [Option.some.injEq, Prod.mk.injEq] at h; rw [← h.2.1]
+    · split at h
+      · cases h
+      · simp only [Option.some.injEq, Prod.mk.injEq] at h; rw [← h.2.1]
   · simp only [Option.some.injEq, Prod.mk.injEq] at h; rw [← h.2.1]
   · simp only [Option.some.injEq, Prod.mk.injEq] at h; rw [← h.2.1]
 
